@@ -60,6 +60,9 @@ class OTelMetrics(MetricProcessor):
         :param unit: the metric unit
         :param value: the metric value
         """
+        # the OpenTelemetry API takes text only: a metric defined without help or unit has None here
+        unit = unit or ''
+        help_string = help_string or ''
         try:
             with self.__lock:
                 counter: Counter
@@ -81,6 +84,9 @@ class OTelMetrics(MetricProcessor):
         :param unit: the metric unit
         :param value: the metric value
         """
+        # the OpenTelemetry API takes text only: a metric defined without help or unit has None here
+        unit = unit or ''
+        help_string = help_string or ''
         try:
             with self.__lock:
                 gauge: UpDownCounter
@@ -102,6 +108,9 @@ class OTelMetrics(MetricProcessor):
         :param unit: the metric unit
         :param value: the metric value
         """
+        # the OpenTelemetry API takes text only: a metric defined without help or unit has None here
+        unit = unit or ''
+        help_string = help_string or ''
         try:
             with self.__lock:
                 histogram: Histogram
@@ -123,6 +132,9 @@ class OTelMetrics(MetricProcessor):
         :param unit: the metric unit
         :param value: the metric value
         """
+        # the OpenTelemetry API takes text only: a metric defined without help or unit has None here
+        unit = unit or ''
+        help_string = help_string or ''
         try:
             with self.__lock:
                 histogram: Histogram
